@@ -5,6 +5,8 @@ import (
 	"fmt"
 	"math/rand/v2"
 	"reflect"
+	"sync"
+	"sync/atomic"
 	"unicode"
 	"unicode/utf8"
 
@@ -59,6 +61,7 @@ func init() {
 type camelCase struct {
 	Cls   []string `json:"cls"`
 	Bytes []int    `json:"bytes,omitempty"`
+	Conc  []string `json:"conc,omitempty"` // concurrent round: the converters are called on these inputs from many goroutines
 }
 
 type camelObs struct {
@@ -130,6 +133,47 @@ func (camelFam) Exec(c core.CaseIn, rng *rand.Rand, emit func(cas, conc, obs any
 	if err := json.Unmarshal(c.Case, &cc); err != nil {
 		return err
 	}
+	if cc.Conc != nil {
+		// pure functions of their input: the answers must not depend on who else is calling
+		want := make([][]string, len(cc.Conc))
+		for i, in := range cc.Conc {
+			for _, cv := range camelConvs {
+				want[i] = append(want[i], cv(in))
+			}
+		}
+		var bad, panics atomic.Int64
+		var wg sync.WaitGroup
+		for g := 0; g < 12; g++ {
+			wg.Add(1)
+			go func(g int) {
+				defer wg.Done()
+				for round := 0; round < 150; round++ {
+					for k := range cc.Conc {
+						i := (k + g + round) % len(cc.Conc)
+						p := core.Try(func() {
+							for j, cv := range camelConvs {
+								if cv(cc.Conc[i]) != want[i][j] {
+									bad.Add(1)
+								}
+							}
+						})
+						if p.Panicked {
+							panics.Add(1)
+						}
+					}
+				}
+			}(g)
+		}
+		wg.Wait()
+		o := camelRun("")
+		o.ConvPanicked = o.ConvPanicked || panics.Load() > 0
+		o.ConvAgain = o.ConvAgain && bad.Load() == 0
+		if panics.Load() > 0 {
+			o.ConvSite = "concurrent callers"
+		}
+		emit(map[string]any{"cls": []string{}, "conc": cc.Conc}, camelConc(""), o)
+		return nil
+	}
 	if cc.Bytes != nil {
 		in := core.FromBytes(cc.Bytes)
 		conc := camelConc(in)
@@ -163,6 +207,7 @@ func (camelFam) Rand(n int, rng *rand.Rand, emit func(cas any)) error {
 	for _, s := range fixed {
 		emit(map[string]any{"bytes": core.Bytes(s)})
 	}
+	emit(map[string]any{"cls": []string{}, "conc": []string{"user_id", "HTTPServer2Go", "_leadingUnderscore", "größeÜber", "a_b_c_d", "XMLHttpRequest", "x", "ID", "some-kebab-case", "with space"}})
 	for i := 0; i < n; i++ {
 		ln := rng.IntN(24)
 		var b []byte
